@@ -29,7 +29,8 @@ EXPLANATION = (
     'reflector construction / reflector application to blocks): pointers into column-major storage own a row and a column zone '
     'variable, arithmetic is decomposed by the stride, every dereference, subscript and filled range is inside the array, and the '
     'callers establish the block preconditions of the appliers. '
-    'Does NOT decide NaN-freedom in general, the inside of the Householder appliers of the Schur class (incl. the SIMD one), '
+    'the two scalar Householder appliers of the Schur class stay inside the 3 x ncol / nrow x 3 window their callers establish. '
+    'Does NOT decide NaN-freedom in general, the inside of the SIMD Householder applier of the Schur class (its peeling arithmetic needs a congruence domain), '
     'DoubleShiftQR::apply_PX(vector) whose third-row read depends on the stored reflector sizes, BKLDLT::solve_inplace (depends on '
     'the sign pattern of the stored permutation), or undefined behaviour outside these clauses.')
 ASSUMPTIONS = ['class invariants = negation of the constructor guards (C12 shows they equal the documented ranges)',
@@ -837,7 +838,12 @@ def pointer_kernel_contracts(ctx, rule='pointer-kernel-contracts'):
                 'X': dict(rows='rows_X', cols='cols_X', stride='stride'), 'XW': dict(rows=3)},
                {'compute': {'Hii': 'm_mat_H'}, 'compute_reflector': {'u': 'm_ref_u', 'nr': 'm_ref_nr', 'x': 'XW'}, 'apply_PX': {'xptr': 'X'},
                 'apply_XP': {'X0': 'X', 'X1': 'X', 'X2': 'X'}})
-    tot = 0
+    HH = contracts.Spec('Spectra::UpperHessenbergSchur', [], {}, {
+        'apply_householder_left': {'pre': ['0 <= ncol']},
+        'apply_householder_right': {'pre': ['0 <= nrow']}})
+    D4 = Dense({'WL': dict(rows=3, cols='ncol', stride='stride'), 'WR': dict(rows='nrow', cols=3, stride='stride')},
+               {'apply_householder_left': {'x': 'WL', 'x_end': 'WL'}, 'apply_householder_right': {'x': 'WR', 'x0': 'WR', 'x1': 'WR', 'x2': 'WR'}})
+    tot = contracts.verify_dense(ctx, HH, D4, _check_sites, rule, min_sites=12)
     for spec, dm, floor in ((HQ, D1, 25), (TQ, D2, 20), (DS, D3, 60)):
         tot += contracts.verify_dense(ctx, spec, dm, _check_sites, rule, min_sites=floor)
         _extents_established(ctx, spec, rule)
